@@ -255,6 +255,13 @@ def solver_session(tr, path, na, twopl, opts, ops, backend_cfg, clock,
                           _pairs_provider_factory(holder, n1_hint),
                           prefer=prefer, xcheck=xcheck,
                           byz_provider=byz_provider, keep_sets=keep_sets)
+    def closure_provider():
+        m = getattr(holder.get('solver'), 'model', None)
+        try:
+            return [(v, j + 1) for j, v in enumerate(m.project_closures)]
+        except Exception:
+            return []
+    be.closure_provider = closure_provider
     tr.backend = be
     undo_b = world.install_backend(be)
     undo_c = world.install_clock(clock)
